@@ -2036,3 +2036,57 @@ def inject_cancel_running_stage(w: World) -> None:
     rows = w.q("SELECT id FROM stage_executions WHERE execution_id=? AND status='RUNNING' AND parent_stage_id IS NULL ORDER BY id", w.workflow_id)
     if rows:
         w.queue.push(CancelStage(execution_id=w.workflow_id, stage_id=rows[0]["id"]))
+
+
+def choice_restart_run(choices: list[Any], sweep: Any, which: Any) -> bool:
+    """C11 after the fact: the deferred-choice workload runs to completion (symbolic schedule), the
+    claims retention sweep runs (or not), then an operator restarts one member of the group (the
+    loser or the winner, symbolic).  Still exactly one member of the group ever runs a task: a
+    restarted loser ends CANCELED again."""
+    with hx.Path("choice_restart") as P:
+        with hx.native():
+            w = World()
+            try:
+                wf = WORKLOADS["choice"]()
+                w.submit(wf)
+                cp = 0
+                step = 0
+                while step < MAX_STEPS:
+                    if not w.make_visible():
+                        break
+                    now = stubs.CLOCK.peek_ms()
+                    vis = [r for r in w.rows() if r["attempts"] < w.queue_max_attempts and r["deliver_ms"] // 1000 <= now // 1000
+                           and (r["lock_ms"] is None or r["lock_ms"] // 1000 < now // 1000)]
+                    if not vis:
+                        break
+                    vis.sort(key=lambda r: (r["deliver_at"], r["id"]))
+                    idx = 0
+                    if cp < len(choices) and len(vis) > 1:
+                        idx = hx.pick(choices[cp], min(len(vis), 3))
+                        cp += 1
+                    w.deliver(vis[idx]["id"])
+                    step += 1
+                snap0 = w.snapshot()
+                ran0 = sorted({e["ref"] for e in w.ledger.entries if e["ref"] in ("c1", "c2")})
+                if len(ran0) != 1:
+                    return True  # covered by the group_* obligations
+                winner = ran0[0]
+                loser = "c2" if winner == "c1" else "c1"
+                swept = hx.decide(sweep)
+                if swept:
+                    w.store.cleanup_completed_stage_claims()
+                target = loser if hx.pick(which, 2) == 0 else winner
+                w.orchestrator.restart(w.store.retrieve(w.workflow_id), w.refs[target])
+                w.drain()
+                snap = w.snapshot()
+                ran = sorted({e["ref"] for e in w.ledger.entries if e["ref"] in ("c1", "c2")})
+                P.reached((winner, swept, target == loser), {"winner": winner, "swept": swept, "restarted": target})
+                info = {"winner": winner, "claims_swept_before_restart": swept, "restarted": target, "members_that_ran_a_task": ran,
+                        "final": {m: snap["stages"][m]["status"] for m in ("c1", "c2")}, "before_restart": {m: snap0["stages"][m]["status"] for m in ("c1", "c2")}}
+                if ran != [winner]:
+                    return P.fail("C11/choice_restart/second_member_of_the_group_ran/%s" % ("after_sweep" if swept else "no_sweep"), info)
+                if target == loser and snap["stages"][loser]["status"] not in ("CANCELED", "NOT_STARTED", "SKIPPED"):
+                    return P.fail("C11/choice_restart/restarted_loser_not_canceled/%s" % snap["stages"][loser]["status"], info)
+                return True
+            finally:
+                w.close()
